@@ -257,6 +257,11 @@ func cmdCheck(args []string) int {
 			machinery = true
 			continue
 		}
+		if oc.Res.Status == "error" {
+			fmt.Printf("gvc: every solver rejected the query of %s (generator defect): %s\n", oc.O.Name(), truncate(oc.Res.Detail, 300))
+			machinery = true
+			continue
+		}
 		if oc.OK {
 			discharged++
 			continue
